@@ -196,7 +196,7 @@ func init() {
 		if !sameStrings(rr.Rest, res.Rest) {
 			c.Fail("remaining-arguments|"+pol.name, map[string]interface{}{"want": res.Rest, "got": rr.Rest})
 		}
-		if warm == 0 && !sameStrings(b.ActiveChain(), chainNames(res.Chain)) {
+		if !sameStrings(b.ActiveChain(), chainNames(res.Chain)) { // (also on a parser that selected other commands before)
 			c.Fail("context-after-unknown|"+pol.name, map[string]interface{}{"want": chainNames(res.Chain), "got": b.ActiveChain()})
 		}
 		compareOptionValues(c, b, cfg, res, "continued-parse-")
@@ -233,8 +233,8 @@ func c07Excluded(c *explore.Ctx, opts flags.Options) {
 		Xx bool `long:"xx" short:"x"`
 	}
 	var o struct {
-		Verbose bool  `short:"v" long:"verbose"`
-		Skip    inner `no-flag:"yes"`
+		Verbose bool   `short:"v" long:"verbose"`
+		Skip    inner  `no-flag:"yes"`
 		SkipP   *inner `no-flag:"yes"`
 	}
 	which := c.Choose(4)
